@@ -10,13 +10,16 @@ def main():
                 "to_dao(root) is added to a session on a fresh in-memory SQLite database and committed; the rows per table are "
                 "counted with plain SQL and compared with Rows (one row per distinct reachable object along the joined-table "
                 "chain); the root is then loaded in a fresh session through its own DAO class and through every DAO base class, "
-                "converted with from_dao and compared by the isomorphism walk (relationship collections as identity sets). "
+                "converted with from_dao and compared by the isomorphism walk (relationship collections as identity sets). In every third heap "
+                "distinct non-root objects of one class carry equal scalar values (twins stay two rows / two objects); a loaded copy's JSON "
+                "columns are modified in memory and the row is loaded again. "
                 "Non-trivial = at least two objects reachable and two references; distinct by (heap, root).")
     ctx.run_tlc("ObjGraph", "ObjGraph_mc.cfg", expect="ok", timeout=1500)
     hs = heaps(ctx, thorough)
     if thorough:
         hs = hs[ctx.seed % 4::4]
-    cases = [dict(h, mode="c05", falsy=(i % 5 == 4)) for i, h in enumerate(hs)]      # every fifth heap consists of falsy objects
+    # every fifth heap consists of falsy objects; in every third, distinct non-root objects of one class carry equal scalar values
+    cases = [dict(h, mode="c05", falsy=(i % 5 == 4), twins=(i % 3 == 1)) for i, h in enumerate(hs)]
     results = replay("objgraph", cases, timeout=5000)
     ctx.replayed = len(cases)
     for h, r in zip(hs, results):
@@ -30,6 +33,9 @@ def main():
             if r["rows"] != h["rows"]:
                 problems.append(f"rows per table {r['rows']}, expected one row per distinct object {h['rows']}")
             diffs = {k: v for k, v in r["diffs"].items() if v}
+            if not diffs and r.get("diff_after_modifying_a_loaded_copy"):
+                problems.append("after a loaded copy was modified in memory (not written back), loading the rows again in a fresh "
+                                "session gave: " + r["diff_after_modifying_a_loaded_copy"])
             if r.get("shared_state_problem") and not h["leaks"] and not h["shared_one"]:
                 problems.append("several from_dao calls sharing one FromDAOState: " + r["shared_state_problem"])
         if not problems and not diffs:
